@@ -276,6 +276,12 @@ def norm_package(run, twin=None):
         if 'cached' in holder:
             ckey, cval = holder['cached']
             prove('stored-under-the-same-key', ckey is holder.get('looked_up'), path=p)
+            # the invariant a later hit relies on, at the EXIT of the call (a list stored first and filled afterwards is judged by what it holds then)
+            filled = isinstance(cval, Parts) and cval.lo is not None and isinstance(ckey, PathP)
+            prove('what-is-stored-is-what-a-hit-assumes', z3.And(cval.lo == ckey.level, cval.hi > cval.lo) if filled else z3.BoolVal(False),
+                  clause='only a non-empty list of the package directories from the key directory upwards is ever in the cache', path=p)
+            prove('nothing-is-stored-for-a-name-that-does-not-resolve', z3.BoolVal(out[0] == 'ok'),
+                  clause='a call that raises leaves no entry behind: the next relative name from that directory must be refused too', path=p)
         m = z3.Int('m')      # depth of the file's package: levels 1..m marked, level m+1 not; the directories above the file exist (a real tree)
         pk = z3.And(m >= 0, z3.ForAll([j], z3.Implies(z3.And(j >= 1, j <= m), Pk(j))), z3.Not(Pk(m + 1)),
                     z3.ForAll([j], z3.Implies(j >= 1, IsDir(j))))
